@@ -46,6 +46,8 @@ type config struct {
 
 var conf = config{}
 
+const defaultConfigFile = ".config"
+
 func printVersion() {
 	fmt.Fprintln(os.Stderr, name)
 	fmt.Fprintf(os.Stderr, "%s\n", strings.Repeat("-", len(name)))
@@ -66,7 +68,7 @@ func parseFlags() (*flag.FlagSet, error) {
 	fs.BoolVar(&conf.help, "help", false, "output this help")
 	fs.BoolVar(&conf.help, "h", false, "output this help")
 	fs.BoolVar(&conf.version, "version", false, "output version details")
-	fs.String(flag.DefaultConfigFlagname, ".config", "path to config file")
+	fs.String(flag.DefaultConfigFlagname, defaultConfigFile, "path to config file")
 	fs.StringVar(&conf.file, "file", "", "path to request file")
 	fs.StringVar(&conf.host, "host", "", "e3dc server host")
 	fs.UintVar(&conf.port, "port", 5033, "e3dc server host port") //nolint:mnd
@@ -83,7 +85,16 @@ func parseFlags() (*flag.FlagSet, error) {
 	fs.BoolVar(&conf.splitrequests, "splitrequests", false, "split the request array to multiple requests.\n"+
 		"this can help if the server sends a timeout on big requests")
 	if err := fs.Parse(os.Args[1:]); err != nil {
-		return fs, fmt.Errorf("%w%s", ErrFlagError, err)
+		var pathErr *os.PathError
+		switch {
+		case errors.Is(err, os.ErrNotExist) && fs.Lookup(flag.DefaultConfigFlagname).Value.String() == defaultConfigFile:
+			// the default config file is optional (it is read last, so everything else is parsed already)
+		case errors.As(err, &pathErr):
+			// not reported by the flag package
+			return fs, fmt.Errorf("could not read config file: %w", err)
+		default:
+			return fs, fmt.Errorf("%w%s", ErrFlagError, err)
+		}
 	}
 	return checkFlags(fs)
 }
